@@ -30,7 +30,7 @@ Step(op, c2) ==
   /\ IF Mode = "hist"
      THEN /\ Len(hist) < Depth
           /\ hist' = Append(hist, op)
-          /\ (Len(hist') < Depth \/ Emit({}, hist'))
+          /\ (IF Len(hist') < Depth THEN TRUE ELSE Emit({}, hist'))
      ELSE /\ hist' = hist
           /\ Emit(Pairs(content), <<op>>)
 
